@@ -1132,7 +1132,10 @@ func c07RaceChild(r *Result, rng *rand.Rand, tier string) {
 		if got.errs > 0 && ref.errs == 0 {
 			// errors that only occur concurrently: SQLite locking noise or a gorm defect — decided by the texts below
 		}
-		if p.Family == "fail" && c07ProgPrepOn(p) {
+		if p.Family == "fail" {
+			// the text "sql: statement is closed" only exists in database/sql's *sql.Stmt methods, so a result matching the F32
+			// pattern certifies by itself that a cached prepared statement was involved (prepared mode can be switched on by an
+			// operation of the fail family itself, not only by the program-level flags c07ProgPrepOn looks at)
 			o.F32 = c07FailF32(ref.outs, got.outs)
 		}
 		for g := 0; g < p.G && o.Mismatch == ""; g++ {
